@@ -42,7 +42,10 @@ def run(db, chk):
     mkdirs = sorted({f.name for f in db.by_crate["gix_worktree"] if f.kind != "promoted" for c in f.calls() if c.is_(r"^std::fs::create_dir(_all)?$")})
     chk.ob("single-mkdir-site", "gix_worktree create_dir callers", mkdirs == ["gix_worktree::stack::delegate::create_leading_directory"], str(mkdirs), key="single-mkdir-site")
     cl_callers = sorted({f.name for f in db.by_crate["gix_worktree"] for c in f.calls() if c.is_(r"delegate::create_leading_directory$")})
-    chk.ob("single-mkdir-site", "callers of create_leading_directory", cl_callers == [push.name], str(cl_callers), key="single-mkdir-caller")
+    # push() validates every component before it may create it; push_directory() may re-verify a component that an earlier push() validated as a leaf
+    # (gix_fs::Stack pushes every non-root component through Delegate::push before it can be entered as a directory)
+    pd_name = push.name.rsplit("::", 1)[0] + "::push_directory"
+    chk.ob("single-mkdir-site", "callers of create_leading_directory", push.name in cl_callers and set(cl_callers) <= {push.name, pd_name}, str(cl_callers), key="single-mkdir-caller")
     # (3) index
     for nm in ("push_element", "add_entry"):
         f = db.one(r"^gix_index::init::from_tree::CollectEntries::%s$" % nm)
